@@ -103,6 +103,9 @@ impl BytesLike for String { open spec fn bytes(&self) -> Seq<u8> { str_bytes(sel
 impl<'a, T: BytesLike + ?Sized> BytesLike for &'a T { open spec fn bytes(&self) -> Seq<u8> { (**self).bytes() } }
 // the UTF-8 encoding of a string (uninterpreted)
 pub uninterp spec fn str_bytes(s: Seq<char>) -> Seq<u8>;
+// String::as_bytes: the UTF-8 bytes of the string (a function of its text)
+pub assume_specification [String::as_bytes] (s: &String) -> (r: &[u8])
+    ensures r@ == str_bytes(s@);
 impl PathLike for String { open spec fn pview(&self) -> Seq<char> { self@ } }
 impl PathLike for str { open spec fn pview(&self) -> Seq<char> { self@ } }
 impl<'a, T: PathLike + ?Sized> PathLike for &'a T { open spec fn pview(&self) -> Seq<char> { (**self).pview() } }
@@ -243,6 +246,7 @@ pub struct World {
     pub ghost checked: bool,                     // C17: the configuration in use has passed Config::check
     pub ghost acted: bool,                       // C17: an API other than `config generate` has run
     pub ghost out_deleted: Set<Seq<char>>,       // C19: the directories `out delete` was pointed at (as given to the OS)
+    pub ghost shown: Seq<Seq<char>>,             // `log show`: the archives streamed to stdout, in order
     pub ghost effects: nat,
     pub ghost bind_attempts: nat,                // attempts to bind the lock address
     pub ghost addr_in_use: bool,                 // another process holds the lock address right now                      // number of mutating application entry points entered
@@ -506,11 +510,11 @@ pub mod fs {
         #[verifier::external_body] pub fn create_new(self, b: bool) -> (r: Self) ensures r == (OpenOptions { cn: b, ..self }) { unimplemented!() }
         // open(2): creates an empty file (create / create_new), truncates an existing one (truncate); fails without an
         // environmental fault exactly when create_new meets an existing file or neither create flag is set and the file is missing
-        #[verifier::external_body] pub fn open<P: PathLike + ?Sized>(self, p: &P, Tracked(w): Tracked<&mut World>) -> (r: Result<File, std::io::Error>)
+        #[verifier::external_body] pub fn open<P: PathLike>(self, p: P, Tracked(w): Tracked<&mut World>) -> (r: Result<File, std::io::Error>)
             requires self.wr ==> recoverable(*old(w)),
             ensures
                 final(w).ptr == old(w).ptr, final(w).last == old(w).last, final(w).ptr_new == old(w).ptr_new, final(w).io_faults >= old(w).io_faults,
-                r matches Ok(f) ==> f.pos == 0 && f.p == p.pview() && final(w).io_faults == old(w).io_faults && final(w).fs == old(w).fs.insert(p.pview(),
+                r matches Ok(f) ==> f.pos == 0 && f.p == p.pview() && f.content == final(w).fs[p.pview()] && final(w).io_faults == old(w).io_faults && final(w).fs == old(w).fs.insert(p.pview(),
                     if self.wr && (self.tr || !old(w).fs.dom().contains(p.pview())) { Seq::<u8>::empty() } else { old(w).fs[p.pview()] })
                     && (old(w).fs.dom().contains(p.pview()) || self.cr || self.cn) && !(self.cn && old(w).fs.dom().contains(p.pview())),
                 r is Err ==> final(w).fs == old(w).fs,
@@ -732,13 +736,28 @@ impl ReadDir {
     #[verifier::external_body] pub fn flatten_vec(self) -> (r: Vec<DirEntry>)
         ensures r@.len() == dir_listing(self.dir).len(), forall|i: int| 0 <= i < r@.len() ==> (#[trigger] r@[i]).p == dir_listing(self.dir)[i] { unimplemented!() }
 }
-impl DirEntry { #[verifier::external_body] pub fn path(&self) -> (r: path::PathBuf) ensures r@ == self.p { unimplemented!() } }
+// a directory entry always has a final component
+impl DirEntry { #[verifier::external_body] pub fn path(&self) -> (r: path::PathBuf) ensures r@ == self.p, file_name_of(r@) is Some { unimplemented!() } }
+pub uninterp spec fn file_name_of(p: Seq<char>) -> Option<Seq<char>>;   // Path::file_name: the final component
+pub uninterp spec fn utf8_name(n: Seq<char>) -> bool;                    // the OS string is valid UTF-8
+pub uninterp spec fn is_dir_spec(p: Seq<char>) -> bool;
+impl OsStr { #[verifier::external_body] pub fn to_str(&self) -> (r: Option<&str>) ensures (r is Some) == utf8_name(self.s), r matches Some(t) ==> t@ == self.s { unimplemented!() } }
+impl ReadDir {
+    // R12 target for `for e in dir.read_dir()?`: every entry once, in listing order, each possibly an error
+    #[verifier::external_body] pub fn results_vec(self) -> (r: Vec<Result<DirEntry, std::io::Error>>)
+        ensures r@.len() == dir_listing(self.dir).len(), forall|i: int| 0 <= i < r@.len() ==> ((#[trigger] r@[i]) matches Ok(e) ==> e.p == dir_listing(self.dir)[i]) { unimplemented!() }
+}
+// R12 target for `a == b` on &str
+#[verifier::external_body] pub fn str_eq(a: &str, b: &str) -> (r: bool) ensures r == (a@ == b@) { unimplemented!() }
 pub mod fs_dir {
     use vstd::prelude::*;
     use super::*;
     #[verifier::external_body] pub fn read_dir<P: PathLike + ?Sized>(p: &P) -> (r: Result<ReadDir, std::io::Error>) ensures r matches Ok(rd) ==> rd.dir == p.pview(), r is Err ==> unreadable_dir(p.pview()) { unimplemented!() }
 }
 impl path::Path {
+    #[verifier::external_body] pub fn file_name(&self) -> (r: Option<&OsStr>) ensures (r is Some) == (file_name_of(self@) is Some), r matches Some(s) ==> Some(s.s) == file_name_of(self@) { unimplemented!() }
+    #[verifier::external_body] pub fn is_dir(&self) -> (r: bool) ensures r == is_dir_spec(self@) { unimplemented!() }
+    #[verifier::external_body] pub fn read_dir(&self) -> (r: Result<ReadDir, std::io::Error>) ensures r matches Ok(rd) ==> rd.dir == self@, r is Err ==> unreadable_dir(self@) { unimplemented!() }
     #[verifier::external_body] pub fn is_file(&self) -> (r: bool) ensures r == is_file_spec(self@) { unimplemented!() }
     #[verifier::external_body] pub fn file_stem(&self) -> (r: Option<&OsStr>) ensures (r is Some) == (file_stem_of(self@) is Some), r matches Some(s) ==> Some(s.s) == file_stem_of(self@) { unimplemented!() }
 }
@@ -765,6 +784,7 @@ pub mod iox {
         { unimplemented!() }
     }
     pub struct Stdout { pub x: u8 }
+    #[verifier::external_body] pub fn stdout() -> Stdout { unimplemented!() }
     impl Stdout {
         #[verifier::external_body] pub fn write_all(&mut self, b: &[u8], Tracked(w): Tracked<&mut World>) -> (r: Result<(), std::io::Error>)
             ensures r is Ok ==> final(w).stdout_bytes == old(w).stdout_bytes + b@, final(w).fs == old(w).fs { unimplemented!() }
